@@ -186,7 +186,7 @@ pub fn property() -> Property {
             name: "streams",
             rule: "see property rule",
             cases: (1_500_000, 8_000_000),
-            fuzz_decode: None,
+            fuzz_decode: Some(crate::fuzzdec::c01_case),
             strategy,
             check,
             required_classes: &["completed", "substituted", "gse_len>=4000", "buffer==packet", "storage>pdu", "buffer>4097", "explicit-reuse", "explicit-reuse-without-label", "encap-err"],
